@@ -104,6 +104,9 @@ def run(ck):
     ck.rule("R8", "the stop set only the C dispatch loops consult is current: a stale one makes them chain through an address where the Python back end stops (rules shared with C23-R3)", floor=1)
     from rules.c23 import stop_set_rules
     stop_set_rules(ck, "R8")
+    ck.rule("R10", "the Python back end's bridge to the VM lays values out as the C primitives do: big endian at the access width, reversed last for little-endian VMs (rules shared with C12-R7)", floor=6)
+    from rules.c12 import emulated_byte_order_rules
+    emulated_byte_order_rules(ck, "R10")
     ck.rule("R7", "contradiction lints: a key tested in one table indexes that table; binary calls use distinct operands", floor=2)
     _access_record_rules(ck)
 
